@@ -58,7 +58,8 @@ def check(run):
     n0 = 400 if q else 8000      # mode 0 pairs
     nr = 450 if q else 8000      # direct routine calls
     ns = 200 if q else 4000      # mode 1/2 runs with the multi-phase search observed
-    run.rule = ("mode 0: pair mix as C01 x large x very_readable; routines: binary_search_lightness / "
+    run.rule = ("mode 0: pair mix as C01 x large x very_readable, through check_and_fix_contrast and through the public API in every spelling "
+                "(distance measured by the model's CIEDE2000 from the independently established original to what the caller reads back); routines: binary_search_lightness / "
                 "gradient_descent_oklch / generate_accessible_color called directly with arbitrary tolerance or schedule "
                 "(empty, single, unsorted, repeated, library schedules) and target; mode 1/2 runs with every call of the "
                 "multi-phase search recorded. non-trivial = the routine/strategy returned a colour different from its input")
@@ -84,6 +85,43 @@ def check(run):
             if r[0] == "raise":
                 run.violation("check_and_fix_contrast raised on a valid pair", list(c), got=r[1])
         run.sample({"mode0": list(cases[0]), "impl": list(impl[0]), "dE": des[0] if des else None})
+        # ---- mode 0 through the public API: what the caller receives (re-formatted, read back) against the original as an
+        #      independent reader establishes it (the generator's colour, composited exactly when translucent)
+        from opt_common import w_api
+        from spellings import OPAQUE_KINDS, TRANSLUCENT_KINDS, alpha_of, composite, spell
+        apairs, _ = gen_pairs(run.rng, 300 if q else 6000)
+        acases, atruth = [], []
+        for (t, b) in apairs:
+            ts, tk = spell(run.rng, t, run.rng.choice(OPAQUE_KINDS + TRANSLUCENT_KINDS))
+            bs, _ = spell(run.rng, b, run.rng.choice(OPAQUE_KINDS))
+            acases.append((ts, bs, run.rng.randrange(2), 0, run.rng.randrange(2)))
+            atruth.append((composite(t, alpha_of(ts, tk), b), tuple(b)))
+        ares = p.map(w_api, acases, chunksize=4)
+        back = []
+        for r in ares:
+            out = r.get("out")
+            back.append(tuple(out) if isinstance(out, (tuple, list)) else r.get("rb_css"))
+        idx = []
+        for i, (r, bk) in enumerate(zip(ares, back)):
+            if "raise" in r or "invalid" in r or bk is None or not valid(bk):
+                continue
+            # the colour the library takes as the original must be the independently established one (translucent text: to
+            # within the 1.5 units per channel C07/C13 allow the blend); the distance is then measured from it
+            if tuple(r["b"]) != atruth[i][1] or max(abs(x - y) for x, y in zip(r["t"], atruth[i][0])) > 1.5:
+                run.violation("the colour the pair takes as its original text colour is not the text composited over the pair's own background",
+                              list(acases[i]), got=list(r["t"]), expected=list(atruth[i][0]), background=list(atruth[i][1]))
+                continue
+            idx.append(i)
+        ades = model_de([(ares[i]["t"], back[i]) for i in idx])
+        for i, d in zip(idx, ades):
+            run.count(("api0", json.dumps(acases[i], default=list)), tuple(back[i]) != tuple(ares[i]["t"]))
+            run.hit("api_mode0")
+            if not (d <= 5.0):
+                run.violation("make_readable(mode=0) hands back a colour further than CIEDE2000 5.0 from the original text colour",
+                              list(acases[i]), returned=ares[i].get("out"), reads_as=list(back[i]), original=list(ares[i]["t"]), dE=d)
+        for r, c in zip(ares, acases):
+            if "raise" in r:
+                run.violation("make_readable raised on a parseable pair", list(c), got=r["raise"])
         # ---- the three routines, arbitrary arguments
         rc = []
         for _ in range(nr):
